@@ -1281,7 +1281,7 @@ func Main(run *hx.Run) {
 		}
 	}
 	r := run.R.Fork("automata")
-	n := run.Scale(400)
+	n := run.Scale(1200)
 	for i := 0; i < n; i++ {
 		run.Do("automata", genCase(r), Exec)
 	}
